@@ -119,6 +119,31 @@ type VC struct {
 	litFuncs map[string]func(string) string // uninterpreted string functions evaluable on literals
 	litAxioms map[string]func(string) ([]string, []string) // per-literal axioms of other evaluable functions
 	seenObl  map[string]bool
+	binders  []string // quantifier variables in scope while a contract expression is evaluated
+}
+
+// hasBound: the term mentions a quantifier variable in scope (an instance
+// fact about it cannot be stated at top level).
+func (vc *VC) hasBound(ts ...Term) bool {
+	for _, t := range ts {
+		for _, b := range vc.binders {
+			for off := 0; ; {
+				i := strings.Index(t.S[off:], b)
+				if i < 0 {
+					break
+				}
+				i += off
+				end := i + len(b)
+				before := i == 0 || !isSymChar(t.S[i-1])
+				after := end == len(t.S) || !isSymChar(t.S[end])
+				if before && after {
+					return true
+				}
+				off = end
+			}
+		}
+	}
+	return false
 }
 
 func newVC(eng *Engine, name string, classes map[string]bool) *VC {
@@ -160,9 +185,16 @@ func (vc *VC) declareFun(name string, args []*Sort, res *Sort) string {
 	return s
 }
 
+func isSymChar(c byte) bool {
+	return c == '_' || c == '!' || c == '.' || c == '$' || c == '|' || (c >= '0' && c <= '9') || (c >= 'a' && c <= 'z') || (c >= 'A' && c <= 'Z')
+}
+
 func (vc *VC) fact(t Term) {
 	if t.S == "true" {
 		return
+	}
+	if len(vc.binders) > 0 && vc.hasBound(t) {
+		return // an instance fact about a quantifier variable in scope cannot be stated at top level
 	}
 	if t.Sort != SBool && t.Sort.Name != "Bool" {
 		panic("fact of non-bool: " + t.S)
